@@ -67,44 +67,124 @@ def str_const(e: ast.expr | None) -> str | None:
     return None
 
 
-def str_collection(e: ast.expr | None) -> tuple[list[str], bool]:
-    """Set/list/tuple display of string constants -> (values in source order, ok)."""
-    if not isinstance(e, (ast.Set, ast.List, ast.Tuple)):
-        return [], False
-    out, ok = [], True
-    for el in e.elts:
-        s = str_const(el)
-        if s is None:
-            ok = False
-        else:
-            out.append(s)
-    return out, ok
+class Unsupported(Exception):
+    pass
 
 
-def dict_table(mod: ast.Module, name: str, seen: tuple[str, ...] = ()) -> tuple[list[tuple[str, str]], bool]:
-    """Dict display of str->str with `**OTHER` spreads resolved, source order kept.
-    Python dict semantics: a repeated key keeps its first position, takes last value."""
-    e = top_assign(mod, name)
-    if not isinstance(e, ast.Dict) or name in seen:
-        return [], False
-    ok = True
-    items: dict[str, str] = {}
-    for k, v in zip(e.keys, e.values):
-        if k is None:  # ** spread
-            if isinstance(v, ast.Name):
-                sub, sok = dict_table(mod, v.id, seen + (name,))
-                ok = ok and sok
-                for kk, vv in sub:
-                    items[kk] = vv
+def const_eval(mod: ast.Module, e: ast.expr | None, seen: tuple[str, ...] = ()):
+    """Value of a constant expression built from string/number constants, set/list/tuple/dict displays (with `*` and
+    `**` spreads), names assigned at module top level, `frozenset/set/tuple/list/dict/sorted(<expr>)`, `dict(k=v, …)`,
+    `a | b` on sets and dicts, `a + b` on lists/tuples/strings, `chr(n)`.  Python's own semantics (dict: a repeated key
+    keeps its first position and takes the last value).  Anything else raises Unsupported."""
+    if e is None:
+        raise Unsupported("no assignment")
+    if isinstance(e, ast.Constant) and isinstance(e.value, (str, int, bool)):
+        return e.value
+    if isinstance(e, ast.Name):
+        if e.id in seen:
+            raise Unsupported("cyclic " + e.id)
+        return const_eval(mod, top_assign(mod, e.id), seen + (e.id,))
+    if isinstance(e, (ast.Set, ast.List, ast.Tuple)):
+        out = []
+        for el in e.elts:
+            if isinstance(el, ast.Starred):
+                out.extend(const_eval(mod, el.value, seen))
             else:
-                ok = False
-            continue
-        ks, vs = str_const(k), str_const(v)
-        if ks is None or vs is None:
-            ok = False
-            continue
-        items[ks] = vs
-    return list(items.items()), ok
+                out.append(const_eval(mod, el, seen))
+        return {ast.Set: lambda x: dict.fromkeys(x), ast.List: list, ast.Tuple: tuple}[type(e)](out)
+    if isinstance(e, ast.Dict):
+        items: dict = {}
+        for k, v in zip(e.keys, e.values):
+            if k is None:
+                sub = const_eval(mod, v, seen)
+                if not isinstance(sub, dict):
+                    raise Unsupported("** of a non-dict")
+                items.update(sub)
+            else:
+                items[const_eval(mod, k, seen)] = const_eval(mod, v, seen)
+        return items
+    if isinstance(e, ast.Call) and isinstance(e.func, ast.Name):
+        fn = e.func.id
+        if fn in ("frozenset", "set", "tuple", "list", "sorted") and len(e.args) <= 1 and not e.keywords:
+            arg = const_eval(mod, e.args[0], seen) if e.args else []
+            vals = list(arg)  # a set is kept as an insertion-ordered dict of its members
+            if fn in ("frozenset", "set"):
+                return dict.fromkeys(vals)
+            return {"tuple": tuple, "list": list, "sorted": sorted}[fn](vals)
+        if fn == "dict" and len(e.args) <= 1:
+            items = dict(const_eval(mod, e.args[0], seen)) if e.args else {}
+            for kw in e.keywords:
+                if kw.arg is None:
+                    items.update(const_eval(mod, kw.value, seen))
+                else:
+                    items[kw.arg] = const_eval(mod, kw.value, seen)
+            return items
+        if fn == "chr" and len(e.args) == 1:
+            return chr(const_eval(mod, e.args[0], seen))
+    if isinstance(e, ast.BinOp) and isinstance(e.op, (ast.BitOr, ast.Add)):
+        l, r = const_eval(mod, e.left, seen), const_eval(mod, e.right, seen)
+        if isinstance(e.op, ast.BitOr) and isinstance(l, dict) and isinstance(r, dict):
+            return {**l, **r}
+        if isinstance(e.op, ast.Add) and type(l) is type(r) and isinstance(l, (list, tuple, str)):
+            return l + r
+    raise Unsupported(ast.dump(e)[:80])
+
+
+def imported_value(modname: str, name: str):
+    """Fallback when the defining expression is not a constant expression: the value the module has once imported
+    (what the code then uses), read in a fresh interpreter."""
+    import subprocess
+    code = ("import json,sys,importlib; m=importlib.import_module(sys.argv[1]); v=getattr(m,sys.argv[2]); "
+            "print(json.dumps(list(v.items()) if isinstance(v,dict) else list(v)))")
+    p = subprocess.run([sys.executable, "-c", code, modname, name], cwd=REPO, capture_output=True, text=True,
+                       timeout=120, env={**os.environ, "PYTHONPATH": REPO})
+    if p.returncode != 0:
+        raise Unsupported(p.stderr[-300:])
+    return json.loads(p.stdout)
+
+
+def str_collection(e: ast.expr | None, mod: ast.Module | None = None, fallback: tuple[str, str] | None = None,
+                   notes: list | None = None) -> tuple[list[str], bool]:
+    """collection of string constants -> (values in source order, ok)."""
+    try:
+        v = const_eval(mod or ast.Module(body=[], type_ignores=[]), e)
+        if isinstance(v, (str, int)) or v is None:
+            raise Unsupported("not a collection")
+        vals = list(v)
+    except (Unsupported, RecursionError, TypeError, ValueError) as ex:
+        if fallback is None:
+            return [], False
+        try:
+            vals = imported_value(*fallback)
+            if notes is not None:
+                notes.append(f"{fallback[1]}: defining expression not understood ({ex}); value taken from the imported module")
+        except Exception:
+            return [], False
+    if not all(isinstance(x, str) for x in vals):
+        return [x for x in vals if isinstance(x, str)], False
+    return vals, True
+
+
+def dict_table(mod: ast.Module, name: str, fallback: tuple[str, str] | None = None,
+               notes: list | None = None) -> tuple[list[tuple[str, str]], bool]:
+    """str->str table, Python dict semantics, source order kept."""
+    try:
+        v = const_eval(mod, top_assign(mod, name), (name,))
+        if not isinstance(v, dict):
+            raise Unsupported("not a dict")
+        items = list(v.items())
+    except (Unsupported, RecursionError, TypeError, ValueError) as ex:
+        if fallback is None:
+            return [], False
+        try:
+            items = [tuple(x) for x in imported_value(*fallback)]
+            if notes is not None:
+                notes.append(f"{name}: defining expression not understood ({ex}); value taken from the imported module")
+        except Exception:
+            return [], False
+    if not all(isinstance(k, str) and isinstance(x, str) for k, x in items):
+        return [(k, x) for k, x in items if isinstance(k, str) and isinstance(x, str)], False
+    return items, True
 
 
 REGEX_SPECIAL = set(".^$*+?{}[]\\|()")
@@ -183,7 +263,7 @@ def tag_fn_rows(rel: str, modname: str) -> tuple[list[dict], list[str]]:
     if not tag_import_ok or rebound:
         for r in rows:
             r["shape"] = False
-    all_names, _ = str_collection(top_assign(mod, "__all__"))
+    all_names, _ = str_collection(top_assign(mod, "__all__"), mod)
     return rows, all_names
 
 
@@ -402,10 +482,12 @@ def generate() -> dict:
     util = parse("htmltools/_util.py")
     init = parse("htmltools/__init__.py")
 
-    void, ok1 = str_collection(top_assign(core, "_VOID_TAG_NAMES"))
-    noesc, ok2 = str_collection(top_assign(core, "_NO_ESCAPE_TAG_NAMES"))
-    text_tbl, ok3 = dict_table(util, "HTML_ESCAPE_TABLE")
-    attr_tbl, ok4 = dict_table(util, "HTML_ATTRS_ESCAPE_TABLE")
+    notes: list[str] = []
+    info["notes"] = notes
+    void, ok1 = str_collection(top_assign(core, "_VOID_TAG_NAMES"), core, ("htmltools._core", "_VOID_TAG_NAMES"), notes)
+    noesc, ok2 = str_collection(top_assign(core, "_NO_ESCAPE_TAG_NAMES"), core, ("htmltools._core", "_NO_ESCAPE_TAG_NAMES"), notes)
+    text_tbl, ok3 = dict_table(util, "HTML_ESCAPE_TABLE", ("htmltools._util", "HTML_ESCAPE_TABLE"), notes)
+    attr_tbl, ok4 = dict_table(util, "HTML_ATTRS_ESCAPE_TABLE", ("htmltools._util", "HTML_ATTRS_ESCAPE_TABLE"), notes)
     for nm, tbl in (("HTML_ESCAPE_TABLE", text_tbl), ("HTML_ATTRS_ESCAPE_TABLE", attr_tbl)):
         for k, _ in tbl:
             if len(k) != 1:
@@ -414,7 +496,7 @@ def generate() -> dict:
                 info["problems"].append(f"{nm}: key {k!r} is a regex metacharacter (guard not modelled)")
     try:
         gen = parse("scripts/generate_tags.py")
-        inline, ok5 = str_collection(top_assign(gen, "_INLINE_TAG_NAMES"))
+        inline, ok5 = str_collection(top_assign(gen, "_INLINE_TAG_NAMES"), gen)
     except Exception as e:  # file removed: classification unavailable
         inline, ok5 = [], False
         info["problems"].append(f"scripts/generate_tags.py: {e}")
@@ -452,7 +534,7 @@ def generate() -> dict:
                 if al.asname not in (None, al.name):
                     reexp_ok = False
                 reexports.append(al.name)
-    init_all, ok7 = str_collection(top_assign(init, "__all__"))
+    init_all, ok7 = str_collection(top_assign(init, "__all__"), init)
     # names rebound at top level of __init__ after import would shadow the re-export
     for node in init.body:
         if isinstance(node, (ast.FunctionDef, ast.ClassDef)) and node.name in reexports:
